@@ -647,6 +647,7 @@ void qprog_run(const qgen *g) {
 	gen_program();
 	for (int c = 0; c < nclients; c++) premark(client_ops[c], client_nops[c], false);
 	render_program();
+	h_announce();
 	create_queues();
 	grp = dispatch_group_create();
 	items_expected = nitems;
